@@ -44,6 +44,16 @@ if __name__ == "__main__":
     if args[:1] == ["-j"]:
         j = int(args[1]); args = args[2:]
     ids = args or sorted(d for d in os.listdir(os.path.join(ROOT, "seeded")) if os.path.exists(os.path.join(ROOT, "seeded", d, "patch.diff")))
+    # interleave the properties: runs of one check are serialised by try_seeded.sh's lock, so neighbours in the queue
+    # should belong to different checks
+    by = {}
+    for i in ids:
+        by.setdefault(i.split("-")[0], []).append(i)
+    ids = []
+    while any(by.values()):
+        for k in sorted(by):
+            if by[k]:
+                ids.append(by[k].pop(0))
     with cf.ThreadPoolExecutor(max_workers=j) as ex:
         for sid, res in ex.map(run, ids):
             print(sid, json.dumps(res), flush=True)
